@@ -97,7 +97,7 @@ func init() {
 		Gen: func(c *RunCtx) []*Batch {
 			r := c.R
 			b := &Batch{Prop: "C11", Name: "vars", Imports: varsImports, CaseType: "vcase", ChkFn: "chk_vars", OutFn: "diag_vars", Codes: true}
-			n := c.N(900, 40000)
+			n := c.N(2400, 40000)
 			for k := 0; k < n; k++ {
 				conf := eval.NewConfig()
 				conf.OperatorMap["c_id"] = func(_ *eval.Ctx, p []eval.Value) (eval.Value, error) { return p[0], nil }
